@@ -11,6 +11,7 @@ from hypothesis import strategies as st
 from vlib import gen, observe, pdbio, common, pkaparse
 
 PROPERTY = "C15"
+REDUCE_KEYS = ["pdb"]
 LEVEL = "exploration"
 RULE = ("whole reference proteins with threaded clusters of like groups around buried positions (ASP/GLU pairs and "
         "triples, HIS/HIS, CYS/CYS, LYS/ARG, mixed; library ions/ligands next to the cluster), the reference proteins "
